@@ -44,7 +44,12 @@ NODE_TAGS = {"lit", "var", "qext", "qvar", "qexpr", "arr", "obj", "block", "if",
 
 
 def fix_ast(ast):
-    """after a JSON round trip: tuples at node level, but value literals / paths / obj pairs stay as they are"""
+    """after a JSON round trip: tuples at node level, but value literals / paths / obj pairs stay as they are.
+    Cases carry the AST as one JSON string (atomic for checklib's structural shrinker, which would otherwise
+    drop AST nodes while the precomputed source text stays the same)."""
+    if isinstance(ast, str):
+        ast = json.loads(ast)
+
     def go(e):
         if isinstance(e, (list, tuple)) and e and isinstance(e[0], str) and e[0] in NODE_TAGS:
             k = e[0]
@@ -85,6 +90,9 @@ def fix_ast(ast):
 
 
 def has_node(ast, pred):
+    if isinstance(ast, str):
+        ast = json.loads(ast)
+
     def go(e):
         if isinstance(e, (list, tuple)):
             if e and isinstance(e[0], str) and e[0] in NODE_TAGS and pred(e):
@@ -95,7 +103,7 @@ def has_node(ast, pred):
 
 
 def make_case(kind, ast, event, meta=None, ekind=None, mkind=None, names=None, extra=None):
-    c = {"op": kind, "ast": ast, "src": cv.vrl_program(ast).encode().hex(), "event": event,
+    c = {"op": kind, "ast": json.dumps(ast), "src": cv.vrl_program(ast).encode().hex(), "event": event,
          "meta": meta if meta is not None else jo([]), "vars": names or (cv.VARS + cv.CLOSURE_PARAMS + ["ev"]),
          "ekind": ekind, "mkind": mkind}
     if extra:
@@ -123,6 +131,8 @@ def coq_okind(k):
 
 
 def to_coq(case, out):
+    if out.get("compile") != "ok":
+        raise ValueError("the program does not compile: %r" % (out.get("diags") or out.get("compile"),))
     ast = fix_ast(case["ast"])
     names = case["vars"]
     res = out["result"]
@@ -188,3 +198,227 @@ def gen_random(run, n, kinded=0.5, bang=True):
         meta = jo([("m1", ji(5))] if rng.random() < 0.5 else [])
         cases.append(make_case("random", ast, ev, meta, ek, None))
     return cases
+
+
+# ------------------------------------------------------------------ unhandled-operation programs
+
+class UGen:
+    """Programs that compute on queries and variables WITHOUT handling errors: the compiler accepts such a
+    program only where it believes the operations cannot fail, so every accepted one probes that belief
+    (C02), the kinds behind it (C01) and the constants behind it (C12)."""
+
+    def __init__(self, rng, fields):
+        self.rng = rng
+        self.fields = fields            # names declared in the external kind (plus a few undeclared)
+        self.vars = []
+
+    def lit(self, t=None):
+        r = self.rng
+        t = t or r.choice(["i", "i", "s", "b", "f", "n", "o", "a"])
+        if t == "i":
+            return ("lit", ji(r.choice([0, 1, 2, 3, -1, 7])))
+        if t == "s":
+            return ("lit", js(r.choice(["", "a", "b"])))
+        if t == "b":
+            return ("lit", r.choice([True, False]))
+        if t == "f":
+            return ("lit", vlib.jf(r.choice([0.0, 1.5, 2.0, -0.5])))
+        if t == "n":
+            return ("lit", None)
+        if t == "o":
+            return ("lit", jo([(k, ji(r.randint(0, 3))) for k in r.sample(["a", "p", "q"], r.randint(0, 2))]))
+        return ("lit", ja([ji(r.randint(0, 3)) for _ in range(r.randint(0, 3))]))
+
+    def path(self):
+        r = self.rng
+        c = r.random()
+        if c < 0.55:
+            return []
+        if c < 0.8:
+            return [f(r.choice(["a", "p", "q"]))]
+        if c < 0.95:
+            return [{"i": str(r.choice([0, 1, 2, -1, -2]))}]
+        return [f(r.choice(["a", "p"])), {"i": str(r.choice([0, 1, -1]))}]
+
+    def atom(self):
+        r = self.rng
+        c = r.random()
+        if c < 0.3:
+            return self.lit()
+        if c < 0.65 or not self.vars:
+            return ("qext", "event", [f(r.choice(self.fields))] + self.path())
+        x = r.choice(self.vars)
+        p = self.path()
+        return ("var", x) if not p else ("qvar", x, p)
+
+    def expr(self, d):
+        r = self.rng
+        c = r.random()
+        if d <= 0 or c < 0.3:
+            return self.atom()
+        if c < 0.55:
+            return ("op", r.choice(["add", "sub", "mul", "div", "add", "div"]), self.expr(d - 1), self.expr(d - 1))
+        if c < 0.65:
+            return ("op", r.choice(["gt", "lt", "ge", "le", "eq", "ne"]), self.expr(d - 1), self.expr(d - 1))
+        if c < 0.75:
+            return ("op", r.choice(["or", "and", "or"]), self.expr(d - 1), self.expr(d - 1))
+        if c < 0.8:
+            return ("op", "merge", self.expr(d - 1), self.expr(d - 1))
+        if c < 0.85:
+            return ("not", self.expr(d - 1))
+        if c < 0.9:
+            return ("arr", [self.expr(d - 1) for _ in range(r.randint(1, 2))])
+        if c < 0.95:
+            return ("block", [self.stmt(d - 1), self.expr(d - 1)])
+        return ("call", r.choice(["length", "is_null", "is_string"]), False, [self.expr(d - 1)])
+
+    def stmt(self, d):
+        r = self.rng
+        c = r.random()
+        if c < 0.3:
+            x = r.choice(["x", "y"])
+            e = self.expr(d) if r.random() < 0.6 else self.lit()
+            s = ("assign", ("tvar", x, [] if r.random() < 0.7 or x not in self.vars else self.path()), e)
+            if x not in self.vars:
+                self.vars.append(x)
+            return s
+        if c < 0.45:
+            return ("assign", ("text", "event", [f(r.choice(self.fields))] + self.path()), self.expr(d) if r.random() < 0.6 else self.lit())
+        if c < 0.55 and self.vars:
+            return ("delvar", r.choice(self.vars), self.path() or [f("a")], False)
+        if c < 0.65:
+            return ("delext", "event", [f(r.choice(self.fields))] + self.path(), r.random() < 0.3)
+        if c < 0.8:
+            saved = list(self.vars)
+            t = [self.stmt(d - 1) for _ in range(r.randint(1, 2))]
+            self.vars = list(saved)
+            e = [self.stmt(d - 1) for _ in range(r.randint(1, 2))] if r.random() < 0.5 else None
+            self.vars = saved
+            cond = ("op", "eq", ("qext", "event", [f("c")]), ("lit", True))
+            return ("if", [cond], t, e)
+        if c < 0.9:
+            saved = list(self.vars)
+            params = [r.choice(["k", "x"]), r.choice(["v", "y"])]
+            self.vars = saved + [p for p in params if p not in saved]
+            body = [self.stmt(d - 1) for _ in range(r.randint(1, 2))] + [("lit", None)]
+            self.vars = saved
+            coll = ("lit", ja([ji(1), ji(2)])) if r.random() < 0.5 else ("lit", jo([("a", ji(1))]))
+            return ("closure", "for_each", coll, params, body)
+        return self.expr(d)
+
+    def program(self):
+        self.vars = []
+        r = self.rng
+        out = [self.stmt(2) for _ in range(r.randint(1, 5))]
+        out.append(self.expr(2))
+        return out
+
+
+def gen_unhandled(run, n):
+    rng = run.rng
+    K, C = K19.K, K19.C
+    cases = []
+    while len(cases) < n:
+        pool = {"i": K("i"), "j": K("i"), "s": K("b"), "b": K("B"), "fl": K("f"), "c": K("B"),
+                "l": K("", C([["0", K("i")], ["1", K("i")]], K19.U_NONE)),
+                "o": K("", None, C([[K19.hexs("a"), K("i")], [K19.hexs("p"), K("i")], [K19.hexs("q"), K("b")]], K19.U_NONE)),
+                "m": K("iu"), "u": K("i", C([["0", K("i")]], K19.U_NONE))}
+        names = [k for k in pool if rng.random() < 0.8]
+        known = [[K19.hexs(k), pool[k]] for k in sorted(names, key=lambda s: s.encode())]
+        ek = K("", None, C(known, rng.choice([K19.U_NONE, K19.U_NONE, K19.U_ANY])))
+        g = UGen(rng, names + ["zz"] if names else ["zz"])
+        try:
+            ast = g.program()
+            cv.vrl_program(ast)
+        except ValueError:
+            continue
+        cases.append(make_case("unhandled", ast, event_for(rng, ek), jo([]), ek, None, names=["x", "y", "k", "v"]))
+    return cases
+
+
+# ------------------------------------------------------------------ the check driver shared by C01, C02, C12
+
+CLASS = {}
+
+
+def case_key(c):
+    return c["src"] + "|" + json.dumps([c["event"], c.get("meta"), c.get("ekind"), c.get("mkind")], sort_keys=True)
+
+
+def coq_map_n(prop, terms, fn, tag, shard=300):
+    import concurrent.futures as cf
+    import os
+    import re
+    d = os.path.join(vlib.CACHE, "cases", prop)
+    os.makedirs(d, exist_ok=True)
+    files = []
+    for si, start in enumerate(range(0, len(terms), shard)):
+        path = os.path.join(d, "%s_%04d.v" % (tag, si))
+        with open(path, "w") as fh:
+            fh.write((IMPORTS % prop) + "\nImport ListNotations.\nLocal Open Scope Z_scope.\n")
+            fh.write("Definition the_cases := [\n  %s\n].\n" % ";\n  ".join(terms[start:start + shard]))
+            fh.write("Eval vm_compute in (map %s the_cases).\n" % fn)
+        files.append(path)
+    res = []
+    with cf.ThreadPoolExecutor(max_workers=vlib.NPROC) as ex:
+        for path, (rc, out) in zip(files, ex.map(lambda p: vlib._coqc(p, 900), files)):
+            m = re.search(r"=\s*\[(.*?)\]\s*:\s*list N", out, re.S)
+            if rc != 0 or not m:
+                raise RuntimeError("finding_class evaluation failed on %s: %s" % (path, out[-800:]))
+            res += [int(x) for x in re.findall(r"\d+", m.group(1))]
+    return res
+
+
+def classify(prop, cases):
+    import checklib
+    todo = [c for c in cases if case_key(c) not in CLASS]
+    if not todo:
+        return
+    outs = vlib.run_harness("typed", todo)
+    idx = [i for i, o in enumerate(outs) if o.get("compile") == "ok" and not checklib.impl_failed(o)]
+    terms = [to_coq(todo[i], outs[i]) for i in idx]
+    cls = coq_map_n(prop, terms, "finding_class", "classes")
+    for i, k in zip(idx, cls):
+        CLASS[case_key(todo[i])] = k
+
+
+def known_matcher_for(prop):
+    def known_matcher(entry, case, out):
+        if isinstance(out, dict) and any(k in out for k in ("panic", "crash", "timeout", "harness_error")):
+            return False
+        k = case_key(case)
+        if k not in CLASS:
+            classify(prop, [case])
+        return CLASS.get(k, 0) == entry["match"]["class"]
+    return known_matcher
+
+
+def standard_main(run, args, prop, theorems, gen_cases, n_quick, n_thorough, nontrivial=None):
+    import checklib
+    n = args.cases or (n_quick if run.tier == "quick" else n_thorough)
+    ok, out = vlib.build_coq(["Corr/%s.vo" % prop])
+    if not ok:
+        vlib.log(out[-3000:])
+    stats = {}
+
+    def gen(run_, n_):
+        return gen_cases(run_, n_, stats)
+
+    if not args.replay:
+        vlib.build_harness("typed")
+        st = run.rng.getstate()
+        cases = [dict(c) for c in checklib.load_corpus(prop)] + gen(run, n)
+        run.rng.setstate(st)
+        stats.clear()
+        classify(prop, cases)
+
+    def cov(cases, outs):
+        hist = {}
+        for c in cases:
+            k = CLASS.get(case_key(c))
+            hist[str(k)] = hist.get(str(k), 0) + 1
+        return {"programs_outside_known_classes": hist.get("0", 0), "finding_class_histogram": hist,
+                "generator_stats": dict(stats)}
+    return checklib.standard(run, prop, theorems, IMPORTS % prop, "typed", gen, to_coq, n,
+                             nontrivial=nontrivial or (lambda c: True), replay=args.replay,
+                             known_matcher=known_matcher_for(prop), extra_cov=cov)
